@@ -6,7 +6,7 @@ from fractions import Fraction
 from xvlib.core import Check
 from xvlib.frontend import AnalysisBroken
 from xvlib.absint import run_function, Inconclusive
-from xvlib.facts import walk, show
+from xvlib.facts import walk, show, calls_in, strip_casts
 from xvlib.normform import Rat, Poly, subst, reduce_trig
 from rules.common import sets_error, value_paths, zero_paths, noerr, register_error_functions, rename, full_range
 
@@ -32,7 +32,36 @@ def run(prog, tier):
     structure_factor(prog, chk, pi)
     stored_volume(prog, chk, tier)
     no_cached_state(prog, chk)
+    full_is_partial_222(prog, chk)
     return chk
+
+
+def full_is_partial_222(prog, chk):
+    """The full structure factor is the partial one with all three terms switched on: every entry point that delegates to
+    Crystal_F_H_StructureFactor_Partial hands each of its own parameters to the callee's parameter OF THE SAME NAME (crystal, energy,
+    the Miller indices, debye_factor, rel_angle, error), and the three flags are 2 unless the entry point has flag parameters itself."""
+    target = prog.func('Crystal_F_H_StructureFactor_Partial', unit=U)
+    tp = [p['name'] for p in target['params']]
+    n = 0
+    for f in prog.src_funcs():
+        if f['unit'] != U or f['name'] == target['name']:
+            continue
+        for c in calls_in(f['body'], 'Crystal_F_H_StructureFactor_Partial'):
+            n += 1
+            own = {p['name'] for p in f['params']}
+            wrong = []
+            for name, a in zip(tp, c['args']):
+                a0 = strip_casts(a)
+                if name in own:
+                    if not (a0.get('k') == 'DeclRefExpr' and a0.get('name') == name):
+                        wrong.append('%s receives %s' % (name, show(a0)[:30]))
+                elif name.endswith('_flag'):
+                    if a0.get('v', a0.get('val')) != 2:
+                        wrong.append('%s is %s, not 2' % (name, show(a0)[:20]))
+            chk.decide(not wrong and len(c['args']) == len(tp), 'full-is-partial-222', U, f['name'], 'delegation@%d' % c['ln'], '%s:%d' % (U, c['ln']),
+                       '%s must hand its parameters to the parameters of the same name of Crystal_F_H_StructureFactor_Partial with all flags 2: %s' % (
+                           f['name'], '; '.join(wrong)), why='same-named parameters forwarded, flags 2,2,2')
+    chk.floor('entry points delegating to the partial structure factor', n, 3)
 
 
 def no_cached_state(prog, chk):
